@@ -175,6 +175,10 @@ theorem parseHier_error (v6ok : Str → Bool) (secure : Bool) (dflt : Nat) (auth
       · cases h
   · cases h; rfl
 
+/-- generated facts (T): `parse_url` tests for "//" and uses `urlsplit` (false of a tree that
+    still calls `urlparse` or lacks the test). -/
+theorem url_shape : Gen.parseUrlRequiresSlashes = true ∧ Gen.parseUrlUsesUrlsplit = true := by decide
+
 /-- `parse_url` on `scheme://…`: the staged form. -/
 theorem parseUrl_hier (v6ok : Str → Bool) (u body : Str) (hc : ':' ∈ u)
     (hr : (u.dropWhile (· != ':')).drop 1 = '/' :: '/' :: body) :
@@ -187,9 +191,10 @@ theorem parseUrl_hier (v6ok : Str → Bool) (u body : Str) (hc : ':' ∈ u)
           (body.dropWhile (fun c => !Model.Url.isDelim c))
       else .error .valueError := by
   unfold Model.Url.parseUrl
+  rw [url_shape.1, url_shape.2]
   have hcon : u.contains ':' = true := by simpa using hc
   simp only [hcon, Bool.not_true, Bool.false_eq_true, if_false, split1_of_mem hc, hr,
-    urlsplit_slashes]
+    urlsplit_slashes, Bool.true_and, if_true]
   have hpre : ("//".toList).isPrefixOf ('/' :: '/' :: body) = true := by simp [List.isPrefixOf]
   simp only [hpre, Bool.not_true, Bool.false_eq_true, if_false]
   unfold parseHier
@@ -501,10 +506,11 @@ theorem parseUrl_noslashes (v6ok : Str → Bool) (u : Str)
     (h : ("//".toList).isPrefixOf ((u.dropWhile (· != ':')).drop 1) = false) :
     Model.Url.parseUrl v6ok u = .error .valueError := by
   unfold Model.Url.parseUrl
+  rw [url_shape.1]
   by_cases hc : ':' ∈ u
   · have hcon : u.contains ':' = true := by simpa using hc
     simp only [hcon, Bool.not_true, Bool.false_eq_true, if_false, split1_of_mem hc, h,
-      Bool.not_false, if_true]
+      Bool.not_false, if_true, Bool.true_and]
   · have hcon : u.contains ':' = false := by simpa using hc
     simp only [hcon, Bool.not_false, if_true]
 
